@@ -497,6 +497,10 @@ func (d *Def) endlessDefinition(
 
 	d.setDefineMethodT(p, ctx, methodT, defineRow)
 
+	if ctx.IsCheckRound() {
+		d.setDefineInfos(p, ctx, methodT, defineRow, p.Row)
+	}
+
 	return nil
 }
 
